@@ -48,6 +48,14 @@ CHECKS = {
             "codec: one response per request with its own seq, nothing unsolicited, handler at most once, result delivered to its requester, "
             "connection still usable afterwards.",
             "DESIGN.md C08", ""),
+    "C09": ("exploration",
+            "deterministic simulation: every built-in exception class x argument shapes x 16 disclosure/instantiation switch pairs raised between two live peers, custom classes via an in-memory importer with canaries, crafted payloads from a scripted peer",
+            "Seeded search (quick) and a complete sweep (thorough: every built-in class x every constructor form x extra attributes x all 16 switch "
+            "pairs) of exceptions crossing the wire under seeded link schedules; oracle from the statement: same built-in class, args with "
+            "non-serializable ones as repr, public data attributes, traceback/version disclosed iff the sender allows, custom classes rebuilt iff "
+            "instantiate (and import) allowed, import side effects and constructor canaries never fire otherwise; crafted payloads never import "
+            "or construct.",
+            "DESIGN.md C09", "Known finding: exception groups arrive as a generic stand-in."),
     "C10": ("exploration",
             "deterministic simulation: seeded histories with the simulator owning the delivery order of the two one-way streams; oracle = refcount ledger, weakrefs, both peers' tables",
             "Seeded search over histories {send again (alone/twice/nested, result or argument), drop, collect, pass back, deliver next frame "
